@@ -14,6 +14,9 @@ import (
 type C05Case struct {
 	MCase
 	Mode string `json:"mode"` // api | cli | cli-skip-imports
+	// Alt: the same patch text under the other reading of which '-' elision an added line's elision repeats (the
+	// statement only fixes that for context lines); either reading's result is accepted.
+	Alt *model.Change `json:"alt,omitempty"`
 }
 
 func init() {
@@ -31,14 +34,25 @@ func init() {
 		Run: func(env *core.Env, ci any) core.Outcome {
 			c := ci.(*C05Case)
 			opts := canon.Options{MaskImports: true, KeepParens: true}
-			var v mverdict
-			switch c.Mode {
-			case "api":
-				v = judgeModelWith(&c.MCase, opts, apiRunner)
-			case "cli":
-				v = judgeModelWith(&c.MCase, opts, cliRunner(env))
-			default:
-				v = judgeModelWith(&c.MCase, opts, cliRunner(env, "--skip-import-processing"))
+			judge := func(mc *MCase) mverdict {
+				switch c.Mode {
+				case "api":
+					return judgeModelWith(mc, opts, apiRunner)
+				case "cli":
+					return judgeModelWith(mc, opts, cliRunner(env))
+				}
+				return judgeModelWith(mc, opts, cliRunner(env, "--skip-import-processing"))
+			}
+			v := judge(&c.MCase)
+			if v.Out.Violation != "" && c.Alt != nil {
+				if c.Alt.Render() != c.Change.Render() {
+					panic("harness: the alternative reading is not the same patch text")
+				}
+				mc := c.MCase
+				mc.Change = c.Alt
+				if v2 := judge(&mc); v2.Out.Violation == "" {
+					v = v2
+				}
 			}
 			o := v.Out
 			if o.Violation != "" {
@@ -62,39 +76,46 @@ func c05SiteDecls() []string {
 		"func seven() {\n\tp.Foo(1)\n\tw := foo(7)\n\tuse(w)\n}",
 		"func nine() {\n\tfoo(1, 2, 3)\n\ttri(a, b, c)\n\tbefore()\n\tp := acquire(1)\n\tq := acquire(2)\n\tmid()\n\trelease(q)\n\tafter()\n}",
 		"func ten() {\nrows:\n\tfor i := range xs {\n\t\tfoo(10)\n\t\tcontinue rows\n\t}\n\tfor {\n\t\tfoo(11)\n\t\tbreak\n\t}\n}",
+		"func eleven() {\n\tprepare(1)\n\tsend(c, m, retry(3))\n\tconfirm(x, y)\n\tafter()\n}",
 		"func load(path string, strict bool) (*Config, error) {\n\tprep()\n\treturn nil, nil\n}",
 		"func eight() {\n\tswitch {\n\tcase c:\n\t\tx := foo(8)\n\t\tuse(x)\n\t\tafter()\n\tdefault:\n\t\tfoo(9)\n\t}\n}",
 	}
 }
 
 type c05Patch struct {
-	id string
-	ch *model.Change
+	id  string
+	ch  *model.Change
+	alt *model.Change
 }
 
 func c05Patches() []c05Patch {
 	xm := []model.MetaVar{{Name: "x", Kind: "expression"}}
 	xv := []model.MetaVar{{Name: "x", Kind: "expression"}, {Name: "v", Kind: "identifier"}}
 	return []c05Patch{
-		{"expr", &model.Change{Kind: "expr", Meta: xm, Lines: model.L("-foo(x)", "+mark(x)")}},
-		{"stmt-elision", &model.Change{Kind: "stmts", Meta: xv, Lines: model.L("-v := foo(x)", " DOTS_1", "-use(v)", "+mark(x)")}},
-		{"stmt-insert", &model.Change{Kind: "stmts", Meta: xv, Lines: model.L("-v := foo(x)", "+v, err := mark(x)", "+if err != nil {", "+\treturn", "+}")}},
-		{"stmt-delete", &model.Change{Kind: "stmts", Meta: xv, Lines: model.L(" v := foo(x)", "-use(v)")}},
-		{"expr-elision-tail", &model.Change{Kind: "expr", Meta: xm, Lines: model.L("-foo(DOTS_1, x)", "+mark(DOTS_1, x)")}},
-		{"expr-elision-ctx", &model.Change{Kind: "expr", Meta: xm, Lines: model.L(" tri(", " DOTS_1,", "-x,", "+mark(x),", " )")}},
-		{"stmt-elision-retry", &model.Change{Kind: "stmts", Meta: xv, Lines: model.L(" v := acquire(x)", " DOTS_1", "-release(v)", "+releaseAll(v, x)")}},
-		{"for-dots", &model.Change{Kind: "stmts", Meta: xm, Lines: model.L(" for DOTS_1 {", "-foo(x)", "+mark(x)", " DOTS_2", " }")}},
-		{"sig-two-elisions", &model.Change{Kind: "decl", Lines: model.L(" func load(_ DOTS_1) (DOTS_2, error) {", "-\tprep()", "+\tmark()", " DOTS_3", " }")}},
-		{"funcdecl", &model.Change{Kind: "decl", Lines: model.L("-func foo() {", "+func mark() {", " DOTS_1", " }")}},
-		{"typedecl", &model.Change{Kind: "decl", Lines: model.L("-type T struct{ a int }", "+type T struct{ mark int }")}},
-		{"valuedecl", &model.Change{Kind: "decl", Meta: xm, Lines: model.L("-var three = foo(x)", "+var three = mark(x)")}},
-		{"import-add", &model.Change{Kind: "expr", Meta: xm, Imports: []model.Import{{Tag: "+", Path: "added/q"}}, Lines: model.L("-foo(x)", "+q.Mark(x)")}},
-		{"import-add-funcdecl", &model.Change{Kind: "decl", Imports: []model.Import{{Tag: "+", Path: "added/q"}}, Lines: model.L(" func foo() {", "-\ta()", "+\tq.A()", " DOTS_1", " }")}},
-		{"import-add-valuedecl", &model.Change{Kind: "decl", Meta: xm, Imports: []model.Import{{Tag: "+", Name: "qq", Path: "added/q"}}, Lines: model.L("-var three = foo(x)", "+var three = qq.Mark(x)")}},
-		{"import-replace-typedecl", &model.Change{Kind: "decl", Imports: []model.Import{{Tag: "-", Path: "old/p"}, {Tag: "+", Path: "new/p"}}, Lines: model.L("-type T struct{ a int }", "+type T struct{ a p.Int }")}},
-		{"import-replace", &model.Change{Kind: "expr", Meta: xm, Imports: []model.Import{{Tag: "-", Path: "old/p"}, {Tag: "+", Path: "new/p"}}, Lines: model.L("-p.Foo(x)", "+p.Mark(x)")}},
-		{"package-guard", &model.Change{Kind: "expr", Meta: xm, PkgMinus: "p", PkgPlus: "p", Lines: model.L("-foo(x)", "+mark(x)")}},
-		{"package-rename", &model.Change{Kind: "expr", Meta: xm, PkgMinus: "p", PkgPlus: "q", Lines: model.L("-foo(x)", "+mark(x)")}},
+		{id: "expr", ch: &model.Change{Kind: "expr", Meta: xm, Lines: model.L("-foo(x)", "+mark(x)")}},
+		{id: "stmt-elision", ch: &model.Change{Kind: "stmts", Meta: xv, Lines: model.L("-v := foo(x)", " DOTS_1", "-use(v)", "+mark(x)")}},
+		{id: "stmt-insert", ch: &model.Change{Kind: "stmts", Meta: xv, Lines: model.L("-v := foo(x)", "+v, err := mark(x)", "+if err != nil {", "+\treturn", "+}")}},
+		{id: "stmt-delete", ch: &model.Change{Kind: "stmts", Meta: xv, Lines: model.L(" v := foo(x)", "-use(v)")}},
+		{id: "expr-elision-tail", ch: &model.Change{Kind: "expr", Meta: xm, Lines: model.L("-foo(DOTS_1, x)", "+mark(DOTS_1, x)")}},
+		{id: "expr-elision-ctx", ch: &model.Change{Kind: "expr", Meta: xm, Lines: model.L(" tri(", " DOTS_1,", "-x,", "+mark(x),", " )")}},
+		{id: "stmt-elision-retry", ch: &model.Change{Kind: "stmts", Meta: xv, Lines: model.L(" v := acquire(x)", " DOTS_1", "-release(v)", "+releaseAll(v, x)")}},
+		// elisions of a deleted line, of a context line and of an added line: the context line keeps what it elided
+		{id: "crossed-elisions", ch: &model.Change{Kind: "stmts", Lines: model.L("-prepare(DOTS_1)", " send(DOTS_2)", "+confirm(DOTS_1)")},
+			alt: &model.Change{Kind: "stmts", Lines: model.L("-prepare(DOTS_1)", " send(DOTS_2)", "+confirm(DOTS_2)")}},
+		{id: "crossed-elisions-plus-first", ch: &model.Change{Kind: "stmts", Lines: model.L("+announce(DOTS_2)", " send(DOTS_1)", "-confirm(DOTS_2)")},
+			alt: &model.Change{Kind: "stmts", Lines: model.L("+announce(DOTS_1)", " send(DOTS_1)", "-confirm(DOTS_2)")}},
+		{id: "for-dots", ch: &model.Change{Kind: "stmts", Meta: xm, Lines: model.L(" for DOTS_1 {", "-foo(x)", "+mark(x)", " DOTS_2", " }")}},
+		{id: "sig-two-elisions", ch: &model.Change{Kind: "decl", Lines: model.L(" func load(_ DOTS_1) (DOTS_2, error) {", "-\tprep()", "+\tmark()", " DOTS_3", " }")}},
+		{id: "funcdecl", ch: &model.Change{Kind: "decl", Lines: model.L("-func foo() {", "+func mark() {", " DOTS_1", " }")}},
+		{id: "typedecl", ch: &model.Change{Kind: "decl", Lines: model.L("-type T struct{ a int }", "+type T struct{ mark int }")}},
+		{id: "valuedecl", ch: &model.Change{Kind: "decl", Meta: xm, Lines: model.L("-var three = foo(x)", "+var three = mark(x)")}},
+		{id: "import-add", ch: &model.Change{Kind: "expr", Meta: xm, Imports: []model.Import{{Tag: "+", Path: "added/q"}}, Lines: model.L("-foo(x)", "+q.Mark(x)")}},
+		{id: "import-add-funcdecl", ch: &model.Change{Kind: "decl", Imports: []model.Import{{Tag: "+", Path: "added/q"}}, Lines: model.L(" func foo() {", "-\ta()", "+\tq.A()", " DOTS_1", " }")}},
+		{id: "import-add-valuedecl", ch: &model.Change{Kind: "decl", Meta: xm, Imports: []model.Import{{Tag: "+", Name: "qq", Path: "added/q"}}, Lines: model.L("-var three = foo(x)", "+var three = qq.Mark(x)")}},
+		{id: "import-replace-typedecl", ch: &model.Change{Kind: "decl", Imports: []model.Import{{Tag: "-", Path: "old/p"}, {Tag: "+", Path: "new/p"}}, Lines: model.L("-type T struct{ a int }", "+type T struct{ a p.Int }")}},
+		{id: "import-replace", ch: &model.Change{Kind: "expr", Meta: xm, Imports: []model.Import{{Tag: "-", Path: "old/p"}, {Tag: "+", Path: "new/p"}}, Lines: model.L("-p.Foo(x)", "+p.Mark(x)")}},
+		{id: "package-guard", ch: &model.Change{Kind: "expr", Meta: xm, PkgMinus: "p", PkgPlus: "p", Lines: model.L("-foo(x)", "+mark(x)")}},
+		{id: "package-rename", ch: &model.Change{Kind: "expr", Meta: xm, PkgMinus: "p", PkgPlus: "q", Lines: model.L("-foo(x)", "+mark(x)")}},
 	}
 }
 
@@ -126,7 +147,7 @@ func c05Gen(tier string, emit func(any)) {
 			if m == "cli-skip-imports" && !strings.HasPrefix(p.id, "import") && imports == "none" && tier != "thorough" {
 				continue
 			}
-			emit(&C05Case{MCase: MCase{Change: p.ch, File: file, Tag: p.id + "/" + imports + "/" + tag}, Mode: m})
+			emit(&C05Case{MCase: MCase{Change: p.ch, File: file, Tag: p.id + "/" + imports + "/" + tag}, Mode: m, Alt: p.alt})
 		}
 	}
 	for _, p := range c05Patches() {
